@@ -1,11 +1,14 @@
 """C11 Two-way references stay symmetric -- structural clauses.
 
-Deviation from DESIGN.md section 4: a fifth rule (R5, container ownership) is added. Reading
+Deviations from DESIGN.md section 4: R6 re-evaluates C05-R5 (exactness of the reference relation)
+under this property, because every reverse value is read from that relation; and a fifth rule
+(R5, container ownership) is added. Reading
 reverse_references.get_reverse_adjustments showed that it edits the container it receives from
 relation.get_affected_rows in place; symmetry after a *rejected* edit therefore also needs that
 container to be the caller's own copy and never the relation's live index entry.
 """
 import ast
+import copy
 from ..fn import World
 from ..index import AnalysisError, dotted
 from ..astutil import text, short, endswith, calls_in, walk_no_nested
@@ -29,7 +32,9 @@ EXPLANATION = (
   "linking, and the rebuild covers every target row (R4); the containers "
   "get_reverse_adjustments mutates are its own -- locally built, or returned by "
   "ReferenceRelation.get_affected_rows, which in turn returns only the ALL_ROWS marker or a "
-  "container built in the call and never stored (R5). Not decided: that the adjusted values are "
+  "container built in the call and never stored (R5); that relation -- the source of every "
+  "reverse value -- is updated from the stored values read before and after every write "
+  "(R6 = C05-R5). Not decided: that the adjusted values are "
   "the symmetric ones (value level).")
 
 BUILTIN_EXCEPTIONS = {"Exception", "ValueError", "TypeError", "KeyError", "LookupError",
@@ -44,6 +49,10 @@ def check(run, repo, tier):
   r3_unique(run, w)
   r4_rebuild(run, w)
   r5_ownership(run, w)
+  # R6 = C05-R5: the reverse values are read from the column's own relation (see
+  # get_reverse_adjustments / recalc_from_reverse_values), so symmetry needs that index exact.
+  from . import c05
+  c05.r5_reference_index(H.RuleAlias(run, {"C05-R5": "C11-R6"}), w)
 
 
 # --------------------------------------------------------------------------------------- R1
@@ -465,7 +474,6 @@ def r3_unique(run, w):
     if ci is not err:
       continue
     sub = _LenSubst(p)
-    import copy
     test = sub.visit(copy.deepcopy(n.stmt.test))
     if sub.other:
       raise AnalysisError("_list_to_value: rejecting test is not a pure length test: %s"
@@ -541,27 +549,42 @@ def r4_rebuild(run, w):
   rec = [(n, c) for (n, c, nm) in fn.calls() if endswith(nm, "recalc_from_reverse_values")]
   if not mod:
     raise AnalysisError("doModifyColumn: ModifyColumn emission not found")
-  tests = [n for n in cfg.nodes if n.kind == "if" and isinstance(n.stmt.test, ast.Compare) and
-           len(n.stmt.test.ops) == 1 and isinstance(n.stmt.test.ops[0], ast.In) and
-           isinstance(n.stmt.test.left, ast.Constant) and n.stmt.test.left.value == "type" and
-           text(n.stmt.test.comparators[0]) == p_info]
+  def is_type_test(t):
+    return isinstance(t, ast.Compare) and len(t.ops) == 1 and isinstance(t.ops[0], ast.In) and \
+        isinstance(t.left, ast.Constant) and t.left.value == "type" and \
+        text(t.comparators[0]) == p_info
   ok = False
   wit = None
-  if rec and tests:
+  if rec:
     (rn, rc) = rec[0]
-    t = [x for x in tests if any(y is rc for s in x.stmt.body for y in ast.walk(s))]
-    if t:
-      t = t[0]
-      inner = [(text(g), p) for (g, p) in H.guards_of(fn.node, _stmt_of(fn.node, rc))
-               if any(x is g for x in ast.walk(t.stmt))]
-      ok = inner == [(text(t.stmt.test), True)] and \
-          all(cfg.postdominated_by(m, {t.id}) for m in mod) and \
-          all(cfg.dominated_by(t.id, {m}) for m in mod)
+    # the if-statements after the schema action that enclose the rebuild
+    encl = [n for n in cfg.nodes if n.kind == "if" and
+            any(y is rc for st in n.stmt.body + n.stmt.orelse for y in ast.walk(st)) and
+            all(cfg.dominated_by(n.id, {m}) for m in mod)]
+    if not encl:
+      # unconditional rebuild after the schema action: covers the type-change case
+      ok = all(cfg.postdominated_by(m, {rn.id}) for m in mod)
+    elif len(encl) == 1 and is_type_test(encl[0].stmt.test) and \
+        any(y is rc for st in encl[0].stmt.body for y in ast.walk(st)):
+      t = encl[0]
+      ok = all(cfg.postdominated_by(m, {t.id}) for m in mod)
       if not ok:
         for m in mod:
           pth = cfg.path(m, {cfg.exit.id}, removed={t.id}, after=True)
           if pth:
             wit = cfg.describe_path(pth)
+    else:
+      over = [n for n in encl if isinstance(n.stmt.test, ast.BoolOp) and
+              isinstance(n.stmt.test.op, ast.And) and
+              any(is_type_test(v) for v in n.stmt.test.values)] + \
+             [n for n in encl if not is_type_test(n.stmt.test) and
+              "type" not in [c.value for c in ast.walk(n.stmt.test)
+                             if isinstance(c, ast.Constant)]]
+      if over:
+        wit = "also guarded by: " + "; ".join(short(n.stmt.test) for n in over)
+      else:
+        raise AnalysisError("doModifyColumn: cannot interpret the guard of the reverse-column "
+                            "rebuild: %s" % "; ".join(short(n.stmt.test) for n in encl))
   run.ob(R4, fn.qualname, "ModifyColumn -> if 'type' in %s: recalc_from_reverse_values()" % p_info,
          "whenever the type of a column changed, every normal path after the schema action "
          "reaches the rebuild of its reverse column, guarded by nothing else", ok, witness=wit,
@@ -602,7 +625,8 @@ def r4_rebuild(run, w):
   fn = w.fn("column.BaseReferenceColumn.recalc_from_reverse_values")
   flow = H.Flow(fn)
   loops = [s for s in walk_no_nested(fn.node) if isinstance(s, ast.For) and
-           text(s.iter) == "self._target_table.row_ids" and isinstance(s.target, ast.Name)]
+           text(H.strip_passthrough(s.iter)) == "self._target_table.row_ids" and
+           isinstance(s.target, ast.Name)]
   ok = False
   if len(loops) == 1:
     lv = loops[0].target.id
@@ -706,7 +730,7 @@ def _owner(flow, r, module, depth=0):
 def r5_ownership(run, w):
   R5 = run.rule("C11-R5", "get_reverse_adjustments mutates only containers it owns; "
                 "ReferenceRelation.get_affected_rows hands out the ALL_ROWS marker or a container "
-                "built in the call, never one stored in the relation", floor=6)
+                "built in the call, never one stored in the relation", floor=5)
   fn = w.fn("reverse_references.get_reverse_adjustments")
   flow = H.Flow(fn, passthrough=False)     # list(x)/sorted(x) are copies here, not aliases
   mod = fn.fi.module
@@ -938,6 +962,13 @@ VARIANTS = [
    """    update_action = col_obj.recalc_from_reverse_values()
 
     return ret""", "C11-R4"),
+  ("ref-index-from-raw-value", CO,
+   """    new = self.safe_get(row_id)
+    self._update_references(row_id, old, new)""",
+   """    new = value
+    self._update_references(row_id, old, new)""", "C11-R6"),
+  ("copy-keeps-stale-index", CO,
+   "    self._relation.clear()\n", "", "C11-R6"),
   ("rebuild-skips-empty-targets", CO,
    """      reverse_value = self._relation.get_affected_rows((target_row_id,))
       reverse_adjustments.append((target_row_id, sorted(reverse_value)))""",
